@@ -414,15 +414,30 @@ func runSync(dir string) {
 		return bytes.Contains(lb, []byte("Time to switch to consensus"))
 	}
 	report := func(reached bool) {
+		// the reactor stores a block and then executes it: for a moment the store is one block ahead
+		// of state and application. The report is taken (within 3 s) at a moment when the three
+		// agree, read twice with the same result; otherwise as they are.
+		var sh, vh, ah int64
+		var vhash, ahash string
+		var vsize int
+		for i := 0; i < 300; i++ {
+			sh = node.Angine.Height()
+			h1, vs := node.Angine.GetValidators()
+			info := app.Info()
+			vh, vhash, vsize = h1, hex.EncodeToString(vs.Hash()), vs.Size()
+			ah, ahash = info.LastBlockHeight, hex.EncodeToString(info.LastBlockAppHash)
+			if vh == sh && ah == sh && node.Angine.Height() == sh {
+				break
+			}
+			time.Sleep(10 * time.Millisecond)
+		}
 		printBlocks()
-		rep := syncReport{StoreHeight: node.Angine.Height(), Blocks: blocks, Reached: reached, ElapsedMs: time.Since(start).Milliseconds(), Switched: switched()}
+		rep := syncReport{StoreHeight: sh, Blocks: blocks, Reached: reached, ElapsedMs: time.Since(start).Milliseconds(), Switched: switched()}
 		if !reachedAt.IsZero() {
 			rep.SwitchWait = time.Since(reachedAt).Milliseconds()
 		}
-		vh, vs := node.Angine.GetValidators()
-		rep.ValHeight, rep.ValHash, rep.ValSize = vh, hex.EncodeToString(vs.Hash()), vs.Size()
-		info := app.Info()
-		rep.AppHeight, rep.AppHash = info.LastBlockHeight, hex.EncodeToString(info.LastBlockAppHash)
+		rep.ValHeight, rep.ValHash, rep.ValSize = vh, vhash, vsize
+		rep.AppHeight, rep.AppHash = ah, ahash
 		bz, _ := json.Marshal(rep)
 		say("REPORT %s", bz)
 	}
